@@ -101,13 +101,20 @@ async fn roundtrip_task<K: HKey>(mode_name: String, meta_shape_id: u8, lengths: 
     }
     ctl::quiesce().await;
     let mut checks = 0usize;
-    for phase in ["in-memory index", "on-disk index", "regenerated index"] {
+    // a deletion marker (a record without data) among the values
+    let marker_key: K = make_key(250);
+    if let Err(e) = w.s().delete(&marker_key, BlobRecordTimestamp::new(90), false).await {
+        fs.push(finding("write", format!("{mode_name}: delete failed: {e:#}")));
+    }
+    ctl::quiesce().await;
+    for phase in ["in-memory index", "on-disk index", "regenerated index", "regenerated index, data validated at start-up"] {
         match phase {
             "on-disk index" => {
                 let _ = w.apply(Op::Rot).await;
                 ctl::quiesce().await;
             }
-            "regenerated index" => {
+            "regenerated index" | "regenerated index, data validated at start-up" => {
+                w.cfg.validate_data = phase != "regenerated index";
                 if let Err(e) = w.close().await {
                     fs.push(finding("close", format!("{e:#}")));
                 }
@@ -121,6 +128,9 @@ async fn roundtrip_task<K: HKey>(mode_name: String, meta_shape_id: u8, lengths: 
                     break;
                 }
                 ctl::quiesce().await;
+                if w.s().corrupted_blobs_count() != 0 {
+                    fs.push(finding("quarantine", format!("{mode_name}, meta shape {meta_shape_id}, {phase}: {} intact blob(s) quarantined at start-up", w.s().corrupted_blobs_count())));
+                }
             }
             _ => {}
         }
